@@ -24,6 +24,10 @@ add("C14",
     "Coq theorems: the handler table regenerated from choose() equals the documented table (operator, helper, operand type per name); table-driven evaluation agrees with the typed specification for numeric/string/boolean/case-insensitive/timestamp comparisons and the Is* tests; a missing Variable or wrong-typed value never matches; And/Or/Not are forallb/existsb/negb at any depth; first match wins, Default else States.NoChoiceMatched; StringMatches is characterised by an inductive relation ('*' only). ~11k executions of real Choice states per run are checked in Coq against the independent specification (ChoiceSpec) and against the model.",
     "Trusted: Coq kernel + vm_compute; translator; pins (AST digests) for hand-modelled handlers; timestamps on the canonical fixed-width grammar (strptime leniency outside the model); fnmatch tied by differential runs only.",
     "Coq proof over regenerated handler table + executable spec oracle on real executions", "DESIGN.md section 6 (C14)")
+add("C16",
+    "Coq theorems for every size n: the comparison regenerated from each enforcement point (change_state, task reply, StartExecution/StartSyncExecution input, SendTaskSuccess output, Create/UpdateStateMachine definition on both front ends, history length) rejects exactly n > documented limit (and empty definitions); the state-output measure is the modelled json.dumps length. Boundary executions (L-2..L+2, one- and two-byte characters) through the real API and the real engine on the simulated fabric are compared in Coq with the specification and the regenerated comparison. Terminal-state outputs are not checked by the engine: known finding F19.",
+    "Trusted: Coq kernel + vm_compute; translator (operators, constants, one guarded test per point); what each point measures is hand-stated and tied by boundary runs; 'every non-terminal path checks' is covered by executions per state type, not yet by an engine-model theorem.",
+    "Coq proof over regenerated comparisons + boundary executions checked in Coq", "DESIGN.md section 6 (C16)")
 DONE = [c["property_id"] for c in checks]
 m = {
  "version": 1,
